@@ -135,7 +135,11 @@ static void run_item(const Item& it, const std::string& enc, uint64_t X, Result&
             bool leaf = true;
             switch (n.major) {
             case 0: { uint64_t v = d.read_unsigned(); if (v != n.arg) fail("read", "read_unsigned returned " + std::to_string(v) + " expected " + std::to_string(n.arg)); break; }
-            case 1: if (n.arg <= (uint64_t)INT64_MAX) { int64_t v = d.read_negative(); if (v != -1 - (int64_t)n.arg) fail("read", "read_negative returned " + std::to_string(v)); } else d.skip_item(); break;
+            case 1: if (n.arg <= (uint64_t)INT64_MAX) { int64_t v = d.read_negative(); if (v != -1 - (int64_t)n.arg) fail("read", "read_negative returned " + std::to_string(v)); }
+                    else { // -1-n is below INT64_MIN: no int64 is "the value RFC 8949 assigns". Refusing (an exception) is fine and so is saturating at INT64_MIN; any other returned number is a wrapped value
+                        std::istringstream is2(stream); CdnsDecoder d2(is2); consume_pad(d2); try { int64_t v = d2.read_negative(); if (v != INT64_MIN) fail("read", "read_negative returned " + std::to_string(v) + " for -1-" + std::to_string(n.arg) + " (not representable: neither refused nor saturated)"); } catch (std::exception&) {}
+                        d.skip_item(); }
+                    break;
             case 2: { std::string s = d.read_bytestring(); if (s != n.bytes) fail("read", "read_bytestring returned " + std::to_string(s.size()) + " bytes, expected " + std::to_string(n.bytes.size())); break; }
             case 3: { std::string s = d.read_textstring(); if (s != n.bytes) fail("read", "read_textstring returned " + std::to_string(s.size()) + " bytes, expected " + std::to_string(n.bytes.size())); break; }
             case 4: { bool indef = !n.indef; /* the out-parameter starts with the opposite value: the call has to set it */ uint64_t c = d.read_array_start(indef); if (indef != n.indef || (!indef && c != n.kids.size())) fail("read", "read_array_start returned " + std::to_string(c) + "/" + std::to_string(indef)); leaf = false; break; }
@@ -146,7 +150,11 @@ static void run_item(const Item& it, const std::string& enc, uint64_t X, Result&
             if (leaf) { uint64_t s = d.read_unsigned(); if (s != 42) fail("read", "item after the read is " + std::to_string(s) + ", expected the sentinel 42"); }
         } catch (std::exception& e) { fail("read", std::string("exception: ") + e.what()); }
     }
-    // (1b) integers through read_integer
+    // (1b) integers through read_integer (values outside the int64 range: refused or saturated towards their own sign, never wrapped)
+    if (n.major <= 1 && n.arg > (uint64_t)INT64_MAX) {
+        std::istringstream is(stream); CdnsDecoder d(is);
+        try { consume_pad(d); int64_t v = d.read_integer(); int64_t sat = n.major == 0 ? INT64_MAX : INT64_MIN; if (v != sat) fail("read_integer", "returned " + std::to_string(v) + " for an integer outside the int64 range (neither refused nor saturated)"); } catch (std::exception&) {}
+    }
     if (n.major <= 1 && n.arg <= (uint64_t)INT64_MAX) {
         std::istringstream is(stream); CdnsDecoder d(is);
         try { consume_pad(d); int64_t v = d.read_integer(); int64_t want = n.major == 0 ? (int64_t)n.arg : -1 - (int64_t)n.arg; if (v != want) fail("read_integer", "returned " + std::to_string(v) + " expected " + std::to_string(want));
